@@ -199,6 +199,12 @@ class Ref:
         best = max(self.est(o) for o in ops)
         return [o for o in ops if self.est(o) == best]
 
+    def f_custom_hold_last_job(self, ops):
+        last = self.num_jobs - 1
+        if not any(self.job_next[j] < len(self.job_ops[j]) for j in range(last)):
+            return ops
+        return [o for o in ops if self.op_job[o] != last]
+
     def apply_filters(self, names, ops):
         for n in names or []:
             ops = getattr(self, "f_" + n)(ops)
